@@ -146,7 +146,7 @@ func genHistory(rr *rand.Rand, kind string, in *corpus.Item, maxLen int) *histCa
 	}[ifc]
 	others := map[string][]string{
 		"iot":  {"set_quirk", "get_quirk", "workbuf_len", "history_len"},
-		"img":  {"set_quirk", "get_quirk", "workbuf_len", "img_getters", "restart_frame"},
+		"img":  {"set_quirk", "get_quirk", "workbuf_len", "img_getters", "restart_frame", "set_report_metadata"},
 		"tok":  {"set_quirk", "get_quirk", "workbuf_len"},
 		"hash": {"set_quirk", "get_quirk", "checksum", "update"},
 	}[ifc]
@@ -198,6 +198,9 @@ func genHistory(rr *rand.Rand, kind string, in *corpus.Item, maxLen int) *histCa
 				s.line += fmt.Sprintf(" key=%d", []uint32{0, 1, 2, 1290294272, 1310749696}[rr.Intn(5)])
 			case "restart_frame":
 				s.line += fmt.Sprintf(" index=%d iopos=%d", rr.Intn(3), rr.Intn(50))
+			case "set_report_metadata":
+				// KVP (PNG text chunks), EXIF, ICCP, XMP, GAMA, CHRM, SRGB
+				s.line += fmt.Sprintf(" fourcc=%d report=%d", []uint32{0x4B565020, 0x45584946, 0x49434350, 0x584D5020, 0x47414D41, 0x4348524D, 0x53524742}[rr.Intn(7)], []int{1, 1, 1, 0}[rr.Intn(4)])
 			}
 			statusReturning := coro || name == "set_quirk" || name == "restart_frame"
 			// what does the steps list say about the current src/dst nullness?
@@ -316,6 +319,9 @@ func checkHistory(h *histCase, objs []map[string]interface{}) (violKind, what st
 					switch {
 					case s.call == "decode_image_config" && imgSeq == "configured":
 						expect, why = []string{stBadSeq, stBadArg}, "decode_image_config after the image config was decoded must report 'bad call sequence'"
+					case imgSeq == "metadata" && s.call != "tell_me_more":
+						// doc/std/image-decoders-call-sequence.md: in the metadata side-track states only tell_me_more is in sequence
+						expect, why = []string{stBadSeq, stBadArg}, s.call+" while reported metadata is pending (only tell_me_more is in sequence) must report 'bad call sequence'"
 					}
 				}
 			} else if s.call == "restart_frame" && imgSeq == "fresh" && active == "" {
@@ -333,6 +339,9 @@ func checkHistory(h *histCase, objs []map[string]interface{}) (violKind, what st
 				return "protocol:" + s.call + ":state-" + state, fmt.Sprintf("%s: [%s] in model state %s (active=%q, image seq=%s) returned %q; %s", h.kind, s.line, state, active, imgSeq, st, why), classes
 			}
 		}
+		if imgSeq == "metadata" {
+			classes = append(classes, fmt.Sprintf("%s|metadata-pending|%s|%s", h.kind, s.call, clsStatus(st)))
+		}
 		classes = append(classes, fmt.Sprintf("%s|%s|%s|%s", h.kind, state, s.call, clsStatus(st)))
 		// state update
 		if state == "OK" {
@@ -349,6 +358,8 @@ func checkHistory(h *histCase, objs []map[string]interface{}) (violKind, what st
 						// "@base: I/O redirect" or "@base: metadata reported" leave work pending
 						if st == "" && (s.call == "decode_image_config" || s.call == "decode_frame_config" || s.call == "decode_frame") {
 							imgSeq = "configured"
+						} else if st == "@base: metadata reported" && s.call != "tell_me_more" {
+							imgSeq = "metadata"
 						} else {
 							imgSeq = "other"
 						}
@@ -401,6 +412,15 @@ func histJobs(r *drv.Run, phase string, n int, dir string) ([]*wd.Job, error) {
 			byKind[it.Kind] = append(byKind[it.Kind], it)
 		}
 	}
+	// PNGs carrying metadata chunks before and after the pixel data (reported only when opted in)
+	for i := 0; i < 6; i++ {
+		if p := corpus.PNGItem(vk.CaseRNG(r.Seed, 0, phase+"-meta", int64(i))); p != nil {
+			q := *p
+			q.Enc = corpus.PNGWithTextChunks(p.Enc, i%3)
+			q.Setting += "+text-chunks"
+			byKind["png"] = append([]*corpus.Item{&q}, byKind["png"]...)
+		}
+	}
 	var all []*corpus.Item
 	for _, its := range byKind {
 		all = append(all, its...)
@@ -409,6 +429,52 @@ func histJobs(r *drv.Run, phase string, n int, dir string) ([]*wd.Job, error) {
 		return nil, err
 	}
 	var jobs []*wd.Job
+	// the metadata side-track of the image call sequence: PNGs with text / EXIF
+	// chunks before and after the pixel data, metadata reporting opted in, then
+	// short call sequences biased towards the natural order (so that they get
+	// as far as "@base: metadata reported" from either config call) with
+	// out-of-sequence calls mixed in
+	nMeta := 0
+	for _, it := range byKind["png"] {
+		if !strings.Contains(it.Setting, "+text-chunks") {
+			continue
+		}
+		for k := 0; k < n/60+8; k++ {
+			rr := vk.CaseRNG(r.Seed, k, phase+"-metaseq", int64(nMeta))
+			nMeta++
+			h := &histCase{kind: "png", input: it}
+			add := func(s histStep) { h.steps = append(h.steps, s) }
+			add(histStep{line: "op=new kind=png prefill=00 wb=9000000"})
+			add(histStep{line: fmt.Sprintf("op=src in=%s wi=%d closed=1", it.Path, len(it.Enc))})
+			add(histStep{line: "op=dst cap=4096 fill=00"})
+			add(histStep{call: "initialize", isInit: true, goodIni: true, line: "op=init opts=0", expect: []string{""}, why: "initialize with the right size and version must succeed"})
+			for _, fc := range [][]uint32{{0x4B565020}, {0x45584946}, {0x4B565020, 0x45584946}}[rr.Intn(3)] {
+				add(histStep{call: "set_report_metadata", line: fmt.Sprintf("op=call call=set_report_metadata fourcc=%d report=1", fc)})
+			}
+			calls := 5 + rr.Intn(8)
+			for c := 0; c < calls; c++ {
+				name := "decode_image_config"
+				if c > 0 || rr.Intn(10) == 0 {
+					switch p := rr.Intn(100); {
+					case p < 35:
+						name = "decode_frame_config"
+					case p < 60:
+						name = "decode_frame"
+					case p < 90:
+						name = "tell_me_more"
+					}
+				}
+				add(histStep{call: name, isCoro: true, line: "op=call call=" + name})
+			}
+			var sb strings.Builder
+			sb.WriteString("job=hist cpu=60\n")
+			for _, st := range h.steps {
+				sb.WriteString(st.line + "\n")
+			}
+			sb.WriteString("end\n")
+			jobs = append(jobs, &wd.Job{Text: sb.String(), Tag: h})
+		}
+	}
 	for i := 0; i < n; i++ {
 		rr := vk.CaseRNG(r.Seed, 0, phase, int64(i))
 		kind := allKinds[rr.Intn(len(allKinds))]
